@@ -1592,6 +1592,14 @@ def c18(tier, sc):
     # dollar-quoted strings
     dops = ["$$", "$a$", "$A$", "$ab$", "$aB$"]
     cases += sqli_props(sc, d, rep, "c18dollar", "c18", byte_units("$aAb x"), 6 if big else 5, openers=dops)
+    # long literals: tags, bodies, delimiter runs and backslash runs around and beyond the token buffer (31 / 32 / 33 / 40 / 64 / 130)
+    ln = (31, 32, 33, 40, 64, 130)
+    ldops = ["$" + "a" * n + "$" for n in ln]
+    cases += sqli_props(sc, d, rep, "c18longtag", "c18", ["$", "a", "a" * 31, "a" * 32, "a" * 33, "a" * 40, "a" * 64, "a" * 130, " x"], 3, openers=ldops)
+    for op in ("'", '"', "`", "$a$", "q'["):
+        cl = {"'": "'", '"': '"', "`": "`", "$a$": "$a$", "q'[": "]'"}[op]
+        us = ["a" * n for n in ln] + [cl, "\\", "\\" * 16, "\\" * 17, cl * 16, cl * 17, cl * 33, " x"]
+        cases += sqli_props(sc, d, rep, "c18long%d" % ord(op[-1]), "c18", list(dict.fromkeys(us)), 3, openers=[op])
     # periodic tails (templates are literal inputs with the opener counted)
     items = []
     meta = []
@@ -1757,6 +1765,9 @@ def c14(tier, sc):
         for w in near:
             for t in ("%s", a + " %s 7", "7 %s " + a, "%s 7 " + a, a + " " + b2 + " %s", "%s " + a):
                 inputs.append(vgen.b(t % w))
+            if len(w) > 31:              # what follows a long word, in every length modulo a scanner's block size
+                for k in range(1, 9):
+                    inputs.append(vgen.b(w + " " + "1" * k))
     res = sqli_api(sc, vh, inputs)
     nn = 0
     for x, rr in zip(inputs, res):
